@@ -3,8 +3,8 @@ package main
 import (
 	"fmt"
 	"os"
-	"strings"
 	"path/filepath"
+	"strings"
 
 	"github.com/zalf-rpm/Hermes2Go/hermes"
 	"verifharness/vh"
@@ -82,7 +82,7 @@ func c14SessionSequences(c *vh.Ctx, metas []cfgMeta) {
 				ok = false
 				break
 			}
-			evalCfgProperty(c, fmt.Sprintf("session-line%d", minI(li+1, 2)), cs, ex, cfg, metas)
+			evalCfgProperty(c, fmt.Sprintf("session-line%d", minICfg(li+1, 2)), cs, ex, cfg, metas)
 			c.Count("kernel:session-sequence-line")
 		}
 		s.Close()
